@@ -228,6 +228,10 @@ def chk_perm(ctx, p):
                 list(res)
     if len(p) >= 2:
         P.min_gapsize()
+    for names in ALIASES.values():  # every alias is an entry point of its own
+        for al in names:
+            res = getattr(P, al)()
+            ctx.count("aliases.called")
     # history / aliasing: a caller that consumes or alters a returned container must not change later answers
     # (the second round of calls is judged by the monitors like any other call)
     for name in MUTABLE_RESULTS:
